@@ -1,7 +1,7 @@
 """C04 — collider AABBs enclose and are tight (structural clauses; the closed-form extents are NOT decided)."""
 from . import scopes
 from ..core.report import DOMAIN_D
-from ..rules import colliders, frame, degree, hydro, safediv, unpack, purity, onsegment, misc2, aabbtree
+from ..rules import colliders, frame, degree, hydro, safediv, unpack, purity, onsegment, misc2, aabbtree, generic2
 from .common import e2
 
 MODS = {"distance3d.containment", "distance3d.colliders", "distance3d.geometry", "distance3d.utils", "distance3d.mesh"}
@@ -37,3 +37,4 @@ def run(idx, rep, tier):
     misc2.r_dupcond(idx, rep, [m.name for m in idx.lib_modules()], floor=3)
     aabbtree.r_links(idx, rep)      # RigidBody.aabb() is the root box of its AabbTree: links + refit decide that it is the union of the leaves
     unpack.r_unpack(idx, rep, floor=7)
+    generic2.r_axisscale(idx, rep, [m.name for m in idx.lib_modules()], floor=0)      # box vertices / AABB of a rotated box with unequal sizes
